@@ -33,6 +33,7 @@ func (w *vWriter) Write(p []byte) (int, error) {
 func (w *vWriter) WriteLevel(l Level, p []byte) (int, error) { return w.record(l, p) }
 
 func (w *vWriter) record(l Level, p []byte) (int, error) {
+	zzverif.Visible("vWriter")
 	i := len(w.calls)
 	w.calls = append(w.calls, vCall{l, append([]byte(nil), p...)})
 	if w.onWrite != nil {
